@@ -32,7 +32,7 @@ BUDGET = {'quick': {'shards': 0, 'examples': 0, 'min_evaluations': 20, 'nproc': 
                                    {'examples': 24, 'env': ENV16},
                                    {'examples': 24, 'env': ENV16}]},
           'thorough': {'shards': 0, 'examples': 0, 'min_evaluations': 200, 'nproc': 4,
-                       'sub_shards': [{'examples': 75, 'env': ENV16} for _ in range(8)]}}   # ~12 s per configuration: about half an hour
+                       'sub_shards': [{'examples': 75, 'env': ENV16} for _ in range(8)]}}   # measured: 600 configurations in 17 min
 RA = dict(stop_max_attempt_number=3)
 
 
